@@ -205,6 +205,18 @@ def finish(pid, tier, seed, prof, recs, libs, timeout, known, t0, a, extra_cov=N
 
 
 def cmd_replay(a):
+    doc0 = json.load(open(a.path, encoding="utf-8"))
+    prof0 = runner.profile(doc0["property"])
+    if hasattr(prof0, "replay_san") and not doc0["case"].get("global"):
+        # this property's replays run in the environment they were found in (sanitizer runtime preloaded, fill byte)
+        ok = prof0.replay_san(a.path)
+        print("violation: oracle=%s class=%s\n  %s" % (doc0["violation"].get("oracle"), doc0["violation"].get("class"),
+                                                     str(doc0["violation"].get("detail"))[:2000].replace("\n", "\n  ")))
+        if ok:
+            print("VIOLATION property=%s replay=%s" % (doc0["property"], a.path))
+            return 1
+        print("not reproduced")
+        return 0
     ok, viol, digest, doc = runner.replay_file(a.path)
     for v in viol:
         print("oracle=%s class=%s lifetime=%s episode=%s op=%s\n  %s" % (
